@@ -403,6 +403,8 @@ def run(ctx):
     check_rejects_before_accepting(ctx, F)
     check_emit_callbacks(ctx, F)
     check_prefix_pops_stack(ctx, F)
+    import props.C16 as c16
+    c16.check_symbol_delegation(ctx, F)      # every code word reaches the tree unaltered: the bit coders' decode_symbol is a pure delegation
     import props.C08 as c08
     for tree in (ENC, DEC):
         c08.check_clone_complete(ctx, F, tree)      # a tree refreshed from another one (clone / clone_from) is that tree, not a mixture
